@@ -85,6 +85,9 @@ def decode_summary():
         fset(c, me, 'id', dec_id(ep))
         fset(c, me, 'data', dec_data(ep))
         c.ctx.assume(dec_count(ep) >= 0)
+        # decoded values are JSON / msgpack values, never the private sentinel objects of the library
+        for f in (dec_type, dec_ns, dec_id, dec_data):
+            c.ctx.assume(smt.kind(f(ep)) != smt.K_OTHER)
     return Contract(target='packet.Packet.decode', schema=PKT_WORLD, self_obj=None, params={'encoded_packet': 'V'},
                     cases=[Case('decoded', update=upd, result=lambda c: S(dec_count(c.a.encoded_packet))),
                            Case('rejected', kind='raise', exc='ValueError', update=lambda c: None),
